@@ -31,12 +31,21 @@ func (s PathSpec) CLLen() int {
 	return len(*s.Cluster)
 }
 
+// SrcKey orders peer addresses as unsigned numbers (fixed width hex, so that string order is numeric order; the
+// histories never mix IPv4 and IPv6 peers whose order the statement does not define).
+func (s PathSpec) SrcKey() string {
+	if s.Source6 != nil {
+		return fmt.Sprintf("6/%016x%016x", s.Source6[0], s.Source6[1])
+	}
+	return fmt.Sprintf("4/%08x", s.Source)
+}
+
 // RFCKey is the tuple of everything the decision process of the C03 statement reads.
 func (s PathSpec) RFCKey() string {
 	if s.Static {
 		return fmt.Sprintf("static/%d", s.ID)
 	}
-	return fmt.Sprintf("bgp/lp=%d/as=%d/o=%d/med=%d/e=%v/id=%d/cl=%d/src=%d", s.LP, s.ASLen(), s.Origin, s.MED, s.EBGP, s.EffID(), s.CLLen(), s.Source)
+	return fmt.Sprintf("bgp/lp=%d/as=%d/o=%d/med=%d/e=%v/id=%d/cl=%d/src=%s", s.LP, s.ASLen(), s.Origin, s.MED, s.EBGP, s.EffID(), s.CLLen(), s.SrcKey())
 }
 
 // FullKey is the key under which selections are compared across arrival orders: the decision attributes plus
@@ -80,8 +89,8 @@ func RefCompare(a, b PathSpec) (int, string) {
 		return sgn(a.EffID() < b.EffID()), "identifier"
 	case a.CLLen() != b.CLLen():
 		return sgn(a.CLLen() < b.CLLen()), "cluster_list_len"
-	case a.Source != b.Source:
-		return sgn(a.Source < b.Source), "peer_address"
+	case a.SrcKey() != b.SrcKey():
+		return sgn(a.SrcKey() < b.SrcKey()), "peer_address"
 	}
 	return 0, "unspecified"
 }
@@ -115,7 +124,7 @@ func Diff(a, b PathSpec) []string {
 	add(a.OrigID != b.OrigID, "originator_id")
 	add((a.Cluster == nil) != (b.Cluster == nil), "cluster_list_presence")
 	add(a.CLLen() != b.CLLen(), "cluster_list_len")
-	add(a.Source != b.Source, "peer_address")
+	add(a.SrcKey() != b.SrcKey(), "peer_address")
 	add(a.NextHop != b.NextHop, "next_hop")
 	return d
 }
